@@ -249,14 +249,23 @@ sexp sexp_bit_count (sexp ctx, sexp self, sexp_sint_t n, sexp x) {
   sexp_sint_t i;
 #if SEXP_USE_BIGNUMS
   sexp_uint_t count;
+  int borrow;
 #endif
   if (sexp_fixnump(x)) {
     i = sexp_unbox_fixnum(x);
     res = sexp_make_fixnum(bit_count(i<0 ? ~i : i));
 #if SEXP_USE_BIGNUMS
   } else if (sexp_bignump(x)) {
-    for (i=count=0; i<(sexp_sint_t)sexp_bignum_length(x); i++)
-      count += bit_count(sexp_bignum_data(x)[i]);
+    if (sexp_bignum_sign(x) < 0) {
+      /* count the bits of ~x = |x| - 1 */
+      for (i=count=0, borrow=1; i<(sexp_sint_t)sexp_bignum_length(x); i++) {
+        count += bit_count(sexp_bignum_data(x)[i] - borrow);
+        borrow = (borrow && sexp_bignum_data(x)[i] == 0);
+      }
+    } else {
+      for (i=count=0; i<(sexp_sint_t)sexp_bignum_length(x); i++)
+        count += bit_count(sexp_bignum_data(x)[i]);
+    }
     res = sexp_make_fixnum(count);
 #endif
   } else {
